@@ -12,6 +12,7 @@ import (
 	"fmt"
 	"go/ast"
 	"go/parser"
+	"go/printer"
 	"go/token"
 	"os"
 	"path/filepath"
@@ -40,10 +41,20 @@ func parse(rel string) *ast.File {
 
 // constExpr returns the expression a package-level const or var is initialised with.
 func constExpr(rel, name string) ast.Expr {
-	f := parse(rel)
-	if f == nil {
-		return nil
+	for _, r := range pkgFiles(rel) {
+		if _, err := os.Stat(filepath.Join(repo, r)); err != nil {
+			continue
+		}
+		if f := parse(r); f != nil && (r == rel || !hasVerifTag(f)) {
+			if e := constExprIn(f, name); e != nil {
+				return e
+			}
+		}
 	}
+	return nil
+}
+
+func constExprIn(f *ast.File, name string) ast.Expr {
 	for _, d := range f.Decls {
 		gd, ok := d.(*ast.GenDecl)
 		if !ok || (gd.Tok != token.CONST && gd.Tok != token.VAR) {
@@ -88,11 +99,59 @@ func charConst(rel, name string) (int64, bool) {
 	return 0, false
 }
 
-func funcDecl(rel, recv, name string) *ast.FuncDecl {
-	f := parse(rel)
-	if f == nil {
-		return nil
+// pkgFiles lists the non-test Go files of the directory of rel (the package), rel itself first: a
+// declaration that a maintainer moved to another file of the same package is still the same declaration.
+func pkgFiles(rel string) []string {
+	out := []string{rel}
+	dir := filepath.Dir(rel)
+	ents, err := os.ReadDir(filepath.Join(repo, dir))
+	if err != nil {
+		return out
 	}
+	var names []string
+	for _, e := range ents {
+		n := e.Name()
+		if e.IsDir() || !strings.HasSuffix(n, ".go") || strings.HasSuffix(n, "_test.go") {
+			continue
+		}
+		if r := filepath.Join(dir, n); r != rel {
+			names = append(names, r)
+		}
+	}
+	sort.Strings(names)
+	return append(out, names...)
+}
+
+// hasVerifTag: files guarded by the verif build tag are hooks, not the library.
+func hasVerifTag(f *ast.File) bool {
+	for _, cg := range f.Comments {
+		if cg.Pos() > f.Package {
+			break
+		}
+		for _, c := range cg.List {
+			if strings.HasPrefix(c.Text, "//go:build") && strings.Contains(c.Text, "verif") {
+				return true
+			}
+		}
+	}
+	return false
+}
+
+func funcDecl(rel, recv, name string) *ast.FuncDecl {
+	for _, r := range pkgFiles(rel) {
+		if _, err := os.Stat(filepath.Join(repo, r)); err != nil {
+			continue
+		}
+		if f := parse(r); f != nil && (r == rel || !hasVerifTag(f)) {
+			if fd := funcDeclIn(f, recv, name); fd != nil {
+				return fd
+			}
+		}
+	}
+	return nil
+}
+
+func funcDeclIn(f *ast.File, recv, name string) *ast.FuncDecl {
 	for _, d := range f.Decls {
 		fd, ok := d.(*ast.FuncDecl)
 		if !ok || fd.Name.Name != name {
@@ -167,6 +226,122 @@ func leanStrList(xs []string) string {
 		q[i] = leanStr(x)
 	}
 	return "[" + strings.Join(q, ", ") + "]"
+}
+
+// inlineLocals prints e with every local of `scope` that is defined exactly once (`x := expr`, never
+// assigned again, not a loop variable) replaced by its defining expression, repeatedly: naming a
+// sub-expression is not a change of what the code says.
+func inlineLocals(scope ast.Node, e ast.Expr) string {
+	defs := map[string]ast.Expr{}
+	count := map[string]int{}
+	ast.Inspect(scope, func(n ast.Node) bool {
+		switch x := n.(type) {
+		case *ast.AssignStmt:
+			for i, l := range x.Lhs {
+				id, ok := l.(*ast.Ident)
+				if !ok {
+					continue
+				}
+				count[id.Name]++
+				if x.Tok == token.DEFINE && len(x.Lhs) == 1 && len(x.Rhs) == 1 && i == 0 {
+					defs[id.Name] = x.Rhs[0]
+				} else {
+					count[id.Name]++ // multi-value or plain assignment: not a pure name for an expression
+				}
+			}
+		case *ast.IncDecStmt:
+			if id, ok := x.X.(*ast.Ident); ok {
+				count[id.Name] += 2
+			}
+		case *ast.RangeStmt:
+			for _, l := range []ast.Expr{x.Key, x.Value} {
+				if id, ok := l.(*ast.Ident); ok {
+					count[id.Name] += 2
+				}
+			}
+		case *ast.UnaryExpr:
+			if id, ok := x.X.(*ast.Ident); ok && x.Op == token.AND {
+				count[id.Name] += 2 // address taken
+			}
+		}
+		return true
+	})
+	cur := exprString(e)
+	for round := 0; round < 8; round++ {
+		pe, err := parser.ParseExpr(cur)
+		if err != nil {
+			return cur
+		}
+		type rep struct {
+			from, to int
+			text     string
+		}
+		var reps []rep
+		skip := map[*ast.Ident]bool{}
+		ast.Inspect(pe, func(n ast.Node) bool {
+			if se, ok := n.(*ast.SelectorExpr); ok {
+				skip[se.Sel] = true
+			}
+			if kv, ok := n.(*ast.KeyValueExpr); ok {
+				if id, ok := kv.Key.(*ast.Ident); ok {
+					skip[id] = true
+				}
+			}
+			id, ok := n.(*ast.Ident)
+			if !ok || skip[id] {
+				return true
+			}
+			d, ok := defs[id.Name]
+			if !ok || count[id.Name] != 1 {
+				return true
+			}
+			t := exprString(d)
+			switch d.(type) {
+			case *ast.BinaryExpr, *ast.UnaryExpr, *ast.StarExpr, *ast.FuncLit, *ast.CompositeLit:
+				t = "(" + t + ")"
+			}
+			reps = append(reps, rep{int(id.Pos()) - 1, int(id.End()) - 1, t})
+			return true
+		})
+		if len(reps) == 0 {
+			return exprStringOf(pe)
+		}
+		for i := len(reps) - 1; i >= 0; i-- {
+			cur = cur[:reps[i].from] + reps[i].text + cur[reps[i].to:]
+		}
+	}
+	return cur
+}
+
+func exprStringOf(e ast.Expr) string {
+	var b bytes.Buffer
+	_ = printer.Fprint(&b, token.NewFileSet(), e)
+	return b.String()
+}
+
+// reachBodies: the body of fd and the bodies of the package-level functions of the same package it calls by
+// name, transitively: a few lines extracted into an unexported helper are still what the function does.
+func reachBodies(rel string, fd *ast.FuncDecl) []ast.Node {
+	var out []ast.Node
+	seen := map[string]bool{}
+	var visit func(fd *ast.FuncDecl, depth int)
+	visit = func(fd *ast.FuncDecl, depth int) {
+		if fd == nil || fd.Body == nil || seen[fd.Name.Name] || depth > 4 {
+			return
+		}
+		seen[fd.Name.Name] = true
+		out = append(out, fd.Body)
+		ast.Inspect(fd.Body, func(n ast.Node) bool {
+			if c, ok := n.(*ast.CallExpr); ok {
+				if id, ok := c.Fun.(*ast.Ident); ok && !seen[id.Name] {
+					visit(funcDecl(rel, "", id.Name), depth+1)
+				}
+			}
+			return true
+		})
+	}
+	visit(fd, 0)
+	return out
 }
 
 var out bytes.Buffer
